@@ -9,11 +9,11 @@ MANIFEST = {
     "C01": {
         "technique": "Lean 4 proof (invariant + refinement of a model of Map/MultiMap with stored height/slope fields, early-exit flags, threaded prev/next list and free list to a sorted association list, by induction over reachable states; lookup cost <= 2*height and the Fibonacci height bound) + differential correspondence model vs real Map.hpp/MultiMap.hpp with a comparison-counting key type",
         "text": "Theorems (lean/Nstd/Avl/Props.lean) over ALL operation histories of the Lean model, including hinted inserts at every position, removals by key/iterator, removeFront/Back, clear, copy assignment and bulk insert between Maps: every reachable tree is an AVL-balanced search tree with correct stored height/slope, the prev/next list threads its in-order sequence (inv_reach, iter_reach); every op takes a step of the sorted-(multi)map specification on contents, acceptance and returned value (refines_rel, refines_run_rel; MultiMap hinted insert relationally via Spec.HintPos); MultiMap plain inserts are stable, count is exact; find needs <= 2*floor(1.4405*log2(n+2)) comparisons (find_cost_log), every other op at most 3 more (op_cost_log).  The model is tied to the current Map.hpp/MultiMap.hpp on every run: identical op lines are executed on both and compared on size, full iteration, returned iterator, key comparisons of every op and, for every key of the domain, the find result and its comparison count (this pins the tree shape through public observables); an independent Python sorted (multi)map and the direct integer evaluation of the comparison bound are evaluated on the implementation's output.",
-        "note": "Trusted: Lean kernel + the three standard axioms; the hand translation of Map.hpp/MultiMap.hpp into the model (validated by the correspondence run, not proved); pointers are modelled as in-order positions / item ids (an iterator handed to insert/remove is the position it has in the iteration); keys are Int (a strict total order; not generalised to other key types), allocation never fails.  Item identities and the LIFO free list are compared with the real code (white-box dump: block number*4+index) in the thorough tier only.  The repaired MultiMap::find/count (fixes/avl/01,02) is what the model mirrors: on a tree without these patches the check reports the D1 violations.  No theorem is partial; open generalisations are listed in the OPEN block of Props.lean.",
+        "note": "Trusted: Lean kernel + the three standard axioms; the hand translation of Map.hpp/MultiMap.hpp into the model (validated by the correspondence run, not proved); pointers are modelled as in-order positions / item ids (an iterator handed to insert/remove is the position it has in the iteration); keys are Int in the checked model; PropsK.lean proves that the same model over any lawful strict total order (ModelK.lean, a key-type-generic copy whose Int instance is proved equal to the checked model) runs like the Int model on an order-preservingly relabelled history and transfers the cost/height/sortedness theorems; allocation never fails.  Item identities and the LIFO free list are compared with the real code (white-box dump: block number*4+index) in the thorough tier only.  The repaired MultiMap::find/count (fixes/avl/01,02) is what the model mirrors: on a tree without these patches the check reports the D1 violations.  No theorem is partial; open generalisations are listed in the OPEN block of Props.lean.",
         "design_ref": "DESIGN.md 3/C01",
     }
 }
-PROPS = ["Nstd.Avl.Props"]
+PROPS = ["Nstd.Avl.Props", "Nstd.Avl.PropsK"]
 LEAN_TARGETS = PROPS + ["drv_avl"]
 DRIVER = "drv_avl"
 
@@ -455,7 +455,7 @@ def check(ctx):
         "self-assignment, self bulk insert and copies of MultiMap are outside this property's generators (lifetime defects D2/D5 belong to C04)",
     ]
     ctx.cov["open_statements"] = [
-        "keys are Int: the statements are not generalised to arbitrary strict total orders",
+        "arbitrary key types: transfer theorem + headline statements (find_cost_log, height_log, sortedness) proved in PropsK.lean; the refinement to the sorted-list specification is stated for Int keys and carries over through G.transfer / G.transfer_out, it is not restated over K",
         "item identities / free-list order: invariant proved (ids distinct, disjoint from the free list); exact ids compared with the real code only in the thorough tier (white-box dump)",
     ]
     proof_ok = C.proof_stage(ctx, PROPS, [DRIVER], leanchecker=(ctx.tier == "thorough"))
